@@ -36,7 +36,13 @@ def gen_session(rng, n_ops, double_add=False):
     sb = SB()
     ts = sb.ts_new()
     sh = tsgen.Shadow()
-    h0 = sb.cas_new(ts, text="0123456789" * 3)
+    lenient = rng.random() < 0.3
+    h0 = sb.cas_new(ts, lenient=lenient, text="0123456789" * 3)
+    foreign_ts = None
+    if lenient:
+        foreign_ts = sb.ts_new()
+        sb.create_type(foreign_ts, "foreign.F", "uima.tcas.Annotation")
+        sb.create_type(foreign_ts, "foreign.G", "uima.cas.TOP")
     handles = {h0: "_InitialView"}
     views = {"_InitialView": []}  # view -> list of labels (bag)
     fs = {}  # label -> (type, b, e)
@@ -53,14 +59,33 @@ def gen_session(rng, n_ops, double_add=False):
             user.append(name)
 
     def new_fs():
+        if foreign_ts is not None and rng.random() < 0.3:
+            # a structure of a type the CAS's type system does not define (lenient CAS only)
+            if rng.random() < 0.5:
+                b = rng.randint(0, 12); e = rng.randint(b, 20)
+                l = sb.fs_new(foreign_ts, "foreign.F", {"begin": b, "end": e})
+                fs[l] = ("foreign.F", b, e)
+            else:
+                l = sb.fs_new(foreign_ts, "foreign.G", {})
+                fs[l] = ("foreign.G", None, None)
+            return l
         t = rng.choice(user + ["uima.tcas.Annotation", "uima.tcas.DocumentAnnotation"]) if user else "uima.tcas.Annotation"
+        xid = rng.choice([None, None, None, 7, 7, 100]) if rng.random() < 0.5 else None
         if "begin" in sh.effective(t):
-            b = rng.randint(0, 12)
-            e = rng.randint(b, min(29, b + rng.choice([0, 0, 1, 3, 10])))
-            l = sb.fs_new(ts, t, {"begin": b, "end": e})
+            if fs and rng.random() < 0.25:
+                # a twin: same type and offsets (and possibly the same explicit id) as an existing structure
+                t0, b, e = rng.choice([v for v in fs.values()])
+                if b is None or t0.startswith("foreign."):
+                    b = rng.randint(0, 12); e = rng.randint(b, 20)
+                else:
+                    t = t0
+            else:
+                b = rng.randint(0, 12)
+                e = rng.randint(b, min(29, b + rng.choice([0, 0, 1, 3, 10])))
+            l = sb.fs_new(ts, t, {"begin": b, "end": e}, xid=xid)
             fs[l] = (t, b, e)
         else:
-            l = sb.fs_new(ts, t, {})
+            l = sb.fs_new(ts, t, {}, xid=xid)
             fs[l] = (t, None, None)
         return l
 
@@ -83,6 +108,8 @@ def gen_session(rng, n_ops, double_add=False):
             o = {"op": "cas.add", "h": h, "fs": l}
             if alias:
                 o["alias"] = alias
+            elif rng.random() < 0.3:
+                o["keep_id"] = False
             sb.ops.append(o)
             views[v].append(l)
         elif r < 0.52:
